@@ -178,6 +178,46 @@ def o_lazy_sibling(src, eager, data):
     return None if got == want else 'lazy %r, eager %r' % (got, want)
 
 
+@C.oracle('discard')
+def o_discard(src, elem, rep, objs, kw):
+    """_index is the repetition index whether or not the results are kept: discard=True selects the same layout"""
+    def mk(disc):
+        d = ', discard=True' if disc else ''
+        if rep == 'Array':
+            inner = 'Array(%d, %s%s)' % (len(objs), elem, d)
+        elif rep == 'GreedyRange':
+            inner = 'Prefixed(Byte, GreedyRange(%s%s))' % (elem, d)
+        else:
+            inner = 'RepeatUntil(lambda x, lst, ctx: ctx._index == %d, %s%s)' % (len(objs) - 1, elem, d)
+        return 'Struct("a"/%s, "t"/Tell)' % inner
+    plain, disc = C.get(mk(False)), C.get(mk(True))
+    def run(f):
+        try:
+            return ('ok', f())
+        except core.ConstructError as e:
+            return ('err', type(e).__name__)
+    b1 = run(lambda: plain.build(dict(a=objs), **kw))
+    b2 = run(lambda: disc.build(dict(a=objs), **kw))
+    if b1 != b2:
+        return 'building %r: kept results give %r, discard=True gives %r' % (objs, b1, b2)
+    if b1[0] != 'ok':
+        return None
+    p1 = run(lambda: plain.parse(b1[1] + b'\x99', **kw))
+    p2 = run(lambda: disc.parse(b1[1] + b'\x99', **kw))
+    if p1[0] != p2[0] or (p1[0] == 'ok' and (p1[1].t != p2[1].t or list(p2[1].a) != [])):
+        return 'parsing %r: kept results give %r, discard=True gives %r' % (b1[1], p1, p2)
+    return None
+
+
+DISCARD = [
+    ('Bytes(this._index + 1)', [b'a', b'bb', b'ccc']),
+    ('Struct("i"/Index, "b"/Bytes(this.i))', [dict(b=b''), dict(b=b'x'), dict(b=b'yz')]),
+    ('Switch(this._index, {0: Byte, 1: Int16ub}, default=Int24ub)', [1, 2, 3]),
+    ('Struct("x"/Struct("b"/Bytes(this._._index)))', [dict(x=dict(b=b'')), dict(x=dict(b=b'q'))]),
+    ('If(this._index == 1, Byte)', [None, 7, None]),
+    ('Byte', [5, 6, 7]),
+]
+
 SIZING = [
     ('Struct("a"/Bytes(this._params.n), "s"/Struct("b"/Bytes(this._._params.n), "c"/Bytes(this._params.n)))', dict(n=2), 6),
     ('Struct("s"/Struct("t"/Struct("b"/Bytes(this._._._.n))))', dict(n=3), 3),
@@ -240,6 +280,9 @@ def run(tier, seed):
             cases.append(dict(src=src, op='parse', data=C.get(src).build(obj, **kw), kw=kw))
         except Exception:
             pass
+    for elem, objs in DISCARD:
+        for rep in ('Array', 'GreedyRange', 'RepeatUntil'):
+            acc.check('discard', '%s over %s' % (rep, elem), elem=elem, rep=rep, objs=objs, kw={})
     # known finding: a lazily skipped sibling is not visible (documented LazyStruct restriction)
     acc.check('lazy_sibling', 'LazyStruct("n"/Byte, "d"/Bytes(this.n))', eager='Struct("n"/Byte, "d"/Bytes(this.n))', data=b'\x02ab')
     acc.corr(cases, 'scope')
@@ -248,7 +291,7 @@ def run(tier, seed):
              '(GreedyRange over a non-consuming probe is replaced by its bounded form), each holding probes this.m, this._.m .. this._^d.m, '
              'this._root.m, this._params.k (+ via _params._params and via d steps up), the three flags, _index, a mixed expression; evaluated by '
              'parse, by build (returned context) and, for size-affecting references, by sizeof; plus dependent-layout structs (lengths, counts, '
-             'selectors from fields; forward references when building; flags inside Lazy*/LazyStruct sizing during parse). distinct = (shape, outcome)' % maxd,
+             'selectors from fields; forward references when building; flags inside Lazy*/LazyStruct sizing during parse); _index-dependent elements under Array/GreedyRange/RepeatUntil with and without discard=True. distinct = (shape, outcome)' % maxd,
         fragment='scope-chain theorems hold for every context; eval_mode_independent: every expression without flag names evaluates identically in '
                  'parse, build and sizeof contexts with the same scope chain',
         partial=['that the three interpreters build the same scope chain is visible in the model definitions and checked by correspondence; '
